@@ -149,7 +149,32 @@ impl RSim {
     /// Execute one op and compare with the model. Only ops whose bits lie within
     /// the data (or any, on zero-extended backends) are value-checked; an Err on
     /// such an op is a violation `<pfx>.spurious_error`.
+    fn hard_fired(&self) -> u64 {
+        self.h.disk.as_ref().map(|d| d.borrow().hard_fired).unwrap_or(0)
+    }
+
     pub fn step(&mut self, ctx: &mut Ctx, i: usize, op: &ROp) -> StepOut {
+        // a non-benign fault injected while this operation runs ends all assertions about the
+        // stream, whether or not the library surfaced it as an error (the reader properties say
+        // nothing about transient I/O errors; C11 owns that question)
+        let before = self.hard_fired();
+        let out = self.step_inner(ctx, i, op);
+        if self.hard_fired() != before {
+            self.dead = true;
+            if let StepOut::Failed = out {
+                if let Some(v) = &ctx.violation {
+                    if !v.oracle.ends_with(".panic") {
+                        ctx.violation = None;
+                        ctx.probe("rsim.result_after_injected_hard_fault_not_asserted");
+                        return StepOut::Err("hard fault injected inside the operation".into());
+                    }
+                }
+            }
+        }
+        out
+    }
+
+    fn step_inner(&mut self, ctx: &mut Ctx, i: usize, op: &ROp) -> StepOut {
         ctx.ops += 1;
         let e = self.e;
         macro_rules! lib {
